@@ -102,6 +102,9 @@ def units(tier, seed):
   small = [dsl.tolist(b) for b in _bodies('quick') if not dsl.has(b, lambda st: st[0] == 'child')]
   for i in range(0, len(small), 4):
     us.append(dict(kind='D', bodies=small[i:i + 4]))
+  sb = [dsl.tolist(b) for b in _bodies('quick', rng=True) if dsl.size(b) <= 2]
+  for i in range(0, len(sb), 10):
+    us.append(dict(kind='S', bodies=sb[i:i + 10]))
   for mp in MAPPED:
     us.append(dict(kind='M', mapped=mp))
   L = bounds(tier)['history_len']
@@ -112,9 +115,102 @@ def units(tier, seed):
 
 def run_unit(unit):
   res = core.new_result()
-  {'A': _fam_A, 'R': _fam_R, 'B': _fam_B, 'D': _fam_D, 'M': _fam_M, 'H': _fam_H}[unit['kind']](
-    res, unit)
+  {'A': _fam_A, 'R': _fam_R, 'B': _fam_B, 'D': _fam_D, 'M': _fam_M, 'H': _fam_H,
+   'S': _fam_S}[unit['kind']](res, unit)
   return res
+
+
+_SJ = None
+
+
+def _setup_classes():
+  """setup-style parent whose jitted / rematted *method* uses a setup-defined submodule that
+  is also used outside the method (the submodule's scope exists before the lifted call)."""
+  global _SJ
+  if _SJ is None:
+    import flax.linen as nn
+
+    def mk(deco):
+      class P(nn.Module):
+        d: tuple = ()
+
+        def setup(self):
+          self.sub = dsl.A(d=self.d)
+
+        def inner(self, x):
+          return self.sub(x)
+        if deco is not None:
+          inner = deco(inner)
+
+        def __call__(self, x):
+          o1 = self.inner(x)
+          o2 = self.sub(o1['x'])
+          o3 = self.inner(o2['x'])
+          o4 = self.sub(o3['x'])
+          return {'x': o4['x'], 'k': (tuple(o1['k']), tuple(o2['k']), tuple(o3['k']),
+                                       tuple(o4['k']))}
+      return P
+    import flax.linen as nn
+    _SJ = dict(plain=mk(None), jit=mk(nn.jit), remat=mk(nn.remat))
+  return _SJ
+
+
+def _fam_S(res, unit):
+  import jax
+  from flax.core import lift as _lift
+  cls = _setup_classes()
+  x, rngs = _X(), _rngs()
+  for bl in unit['bodies']:
+    body = dsl.fromlist(bl)
+    has_rng = dsl.has(body, lambda st: st[0] == 'rng')
+    for t in ('jit', 'remat'):
+      key = f'S|{t}|{body!r}'
+      case = dict(transform=t, body=bl)
+      P, T = cls['plain'](d=body), cls[t](d=body)
+      res['evals'] += 6
+      res['transitions'] += 1
+      oP, vP = P.init_with_output(rngs, x)
+      jax.clear_caches()
+      _lift._side_effect_cache.cache.clear()
+      runs = []
+      try:
+        oT, vT = T.init_with_output(rngs, x)
+        for i in range(3):
+          if i == 2:
+            jax.clear_caches()
+          runs.append(T.apply(vT, x, rngs={'dropout': rngs['dropout']}, mutable=['cnt', 'stats']))
+        aP = P.apply(vP, x, rngs={'dropout': rngs['dropout']}, mutable=['cnt', 'stats'])
+      except Exception as e:  # noqa
+        core.violation(res, f'S-raises|{key}', f'{type(e).__name__}: {str(e)[:200]}', case)
+        continue
+      for i in (1, 2):
+        if canon_tree(np_tree(runs[i])) != canon_tree(np_tree(runs[0])):
+          core.violation(res, f'S-nondet|{key}|{i}',
+                         'repeated apply of a module with a lifted method gave a different '
+                         f'result (run {i}: {"after clearing the jax caches" if i == 2 else "cached"})',
+                         case)
+      kT = [[tuple(np.asarray(k).tolist()) for k in grp] for grp in runs[0][0]['k']]
+      kP = [[tuple(np.asarray(k).tolist()) for k in grp] for grp in aP[0]['k']]
+      flat = [k for g in kT for k in g]
+      if len(set(flat)) != len(flat):
+        core.violation(res, f'S-reuse|{key}', 'a key was handed out twice within one apply', case,
+                       observed=kT)
+      if kT[1] != kP[1] or kT[3] != kP[3]:
+        core.violation(res, f'S-outer|{key}',
+                       'draws made by the submodule outside the lifted method differ from the '
+                       'plain program (counters were not restored after the lifted call)', case,
+                       observed=kT, expected=kP)
+      if t == 'remat' and kT != kP:
+        core.violation(res, f'S-remat-keys|{key}', 'keys under remat differ from plain', case)
+      if not has_rng or t == 'remat':
+        if canon_tree(np_tree((oT, vT))) != canon_tree(np_tree((oP, vP))):
+          core.violation(res, f'S-init|{key}', 'init differs from the plain program', case)
+        if canon_tree(np_tree(runs[0])) != canon_tree(np_tree(aP)):
+          core.violation(res, f'S-apply|{key}', 'apply differs from the plain program', case)
+      core.outcome(res, 'S:ok')
+      res['nontrivial'].append(core.h(key))
+      res['states'] += 1
+  res['samples'].append(dict(family='S', body=unit['bodies'][0]))
 
 
 # ----------------------------------------------------------------------------
